@@ -114,6 +114,23 @@ def alias_histories(prop, rng, nsample):
     return out
 
 
+def noop_histories(prop):
+    """deterministic: family x behind-the-back edit x same-value mutation.  A view is read (slot 1) from a populated /
+    an absent header, the header is changed behind it, then a mutation that does not change the view's own value is
+    applied to the held view (and once more after a fresh read): the header must equal the view's serialisation."""
+    kind, _ = hv.VIEWS[prop]
+    g1 = {"op": "get_view", "prop": prop, "vw": 1}
+    out = []
+    for empty in (False, True):
+        if empty and kind in ("mtp", "wa"):
+            continue
+        seed = {"op": "direct_edit", "prop": prop, "y": None if empty else hv.NOOP_SEED[kind]}
+        for edit in hv.behind_edits(prop):
+            for o in hv.noop_ops(kind, empty):
+                out.append([seed, g1] + edit + [dict(o, vw=1)])
+    return out
+
+
 def random_walk(rng: random.Random, n: int):
     """one Response, several view properties with up to two live views each, scalars, direct edits"""
     props = rng.sample(hv.VIEW_PROPS, rng.randint(1, 3))
@@ -429,7 +446,7 @@ def run(ctx: Ctx):
         for k in ("set", "wa", "cc"):
             ctx.model_check(AREA, "HVModel", f"MCT_{k}", timeout=3000)
     from .. import tlc
-    for cfg in ("MCQ_orig_set", "MCQ_orig_wa", "MCQ_nobind_wa", "MCQ_aliasclear_wa"):
+    for cfg in ("MCQ_orig_set", "MCQ_orig_wa", "MCQ_nobind_wa", "MCQ_aliasclear_wa", "MCQ_lazynotify_wa"):
         r = tlc.run_tlc(AREA, "HVModel", cfg, workers=ctx.workers, tmp=ctx.tmp, allow_violation=True, timeout=600)
         ctx.notes[f"{cfg}_violates"] = r.invariant_violated
         if not r.invariant_violated:
@@ -449,6 +466,12 @@ def run(ctx: Ctx):
         traces += keepref_histories(p, rng, 6 if q else 200)
     for p in SETTER_PROPS:
         traces += alias_histories(p, rng, 3 if q else 150)
+    nn = 0
+    for p in hv.VIEW_PROPS:
+        hs = noop_histories(p)
+        nn += len(hs)
+        traces += hs
+    ctx.notes["noop_histories"] = nn
     traces += scalar_traces(rng)
     for _ in range(130 if q else 5000):
         traces.append(random_walk(rng, rng.randint(6, 14)))
